@@ -63,7 +63,7 @@ SpaceErrs == {"DiskFull", "NotEnoughSpace"}
 \* ------------------------------------------------------------------ volumes
 OpenVolumeRefs(vol, isFat) ==
      (IF Len(ovols) >= lim.v THEN {"TooManyOpenVolumes"} ELSE {})
-  \cup (IF \E i \in 1..Len(ovols) : ovols[i].vol = vol THEN {"*"} ELSE {})
+  \cup (IF \E i \in 1..Len(ovols) : ovols[i].vol = vol THEN {"VolumeAlreadyOpen"} ELSE {})
   \cup (IF ~isFat THEN {"*"} ELSE {})
 OpenVolumePost(vol, h) ==
   /\ ovols' = Append(ovols, [h |-> h, vol |-> vol])
